@@ -278,6 +278,17 @@ class BFGSDampedUpdate(BFGSPDUpdate):
 
         return h_new
 
+    @property
+    def _updated_h_inv(self) -> np.ndarray:
+        """
+        Inverse of the damped update. With active damping this is not the
+        (undamped) BFGS update of the inverse
+        """
+        if self.h is None:
+            self.h = np.linalg.inv(self.h_inv)
+
+        return np.linalg.inv(self._updated_h)
+
 
 class SR1Update(HessianUpdater):
     def __repr__(self):
